@@ -115,6 +115,16 @@ def synthetic_g(n, log_time):
 
 
 # --------------------------------------------------------------------------------------- real objects
+def ref_rho(phys):
+    """Density of the fluid the USER specified (name, percent, temperature), from pygfunction's own Fluid with pygfunction's
+    documented mixture codes (ghelib.independent_fluid) - not from the package's GHEFluid object."""
+    return float(ghelib.independent_fluid(phys).rho)
+
+
+def fluid_label(phys):
+    return f"{phys['fluid'][0]} {phys['fluid'][1]:g}% at {phys.get('fluid_temp', 20.0):g}C"
+
+
 def _phys(case):
     p = dict(case["phys"])
     p["fluid"] = tuple(p["fluid"])
@@ -155,7 +165,7 @@ def run_spec(case, ft, v):
                 "mbhe": float(g.bhe.m_flow_borehole), "nbh": int(g.nbh), "g_n": r["n"], "bore_n": len(g.gFunction.bore_locations),
                 "same_fluid": bool(r["same_fluid"] and g.bhe.fluid is fluid), "same_coords": bool(r["same_coords"])}
 
-    out = {"ft": ft, "v": v, "n": n, "rho": float(fluid.rho), "cp": float(fluid.cp)}
+    out = {"ft": ft, "v": v, "n": n, "rho": float(fluid.rho), "cp": float(fluid.cp), "rho_ref": ref_rho(phys)}
     sr.calc_g_func_for_multiple_lengths = recorder
     try:
         with ghelib.quiet():
@@ -226,7 +236,7 @@ def base_ghe_worker(case):
         gf = GFunction(5.0, borehole.D, {borehole.H: borehole.r_b}, {borehole.H: synthetic_g(n, lt)}, lt, coords)
         sim = SimulationParameters(1, 12, 35.0, 5.0, 135.0, 60.0)
         klass = GHE if case["klass"] == "GHE" else BaseGHE
-        out = {"id": case["id"], "rho": float(fluid.rho)}
+        out = {"id": case["id"], "rho": float(fluid.rho), "rho_ref": ref_rho(phys)}
         try:
             with ghelib.quiet():
                 g = klass(case["vsys"], 5.0, bhe_type, fluid, borehole, pipe, grout, soil, gf, sim, ghelib.atlanta_loads())
@@ -299,6 +309,7 @@ def design_worker(case):
                     out["ghes"] = rec
                     out["gcalls"] = gcalls
                     out["rho"] = float(m._fluid.rho)
+                    out["rho_ref"] = ref_rho(phys)
                     return out
         finally:
             BaseGHE.__init__ = orig
@@ -307,12 +318,13 @@ def design_worker(case):
         out["gcalls"] = list(gcalls)
         s = m._search
         ghe = s.ghe
-        out.update(ghes=rec, rho=float(ghe.bhe.fluid.rho), search=type(s).__name__, n=int(ghe.nbh), H=float(ghe.bhe.b.H),
+        out.update(ghes=rec, rho=float(ghe.bhe.fluid.rho), rho_ref=ref_rho(phys), search=type(s).__name__, n=int(ghe.nbh), H=float(ghe.bhe.b.H),
                    vsys=float(ghe.V_flow_system), mbhe=float(ghe.bhe.m_flow_borehole), find_s=round(time.time() - t, 1))
         with ghelib.quiet():
             om = OutputManager.__new__(OutputManager)
             d = om.get_summary_object(s, 0.0, "p", "n", "a", "m", TimestepType.HYBRID)
             out["summary_m"] = float(d["ghe_system"]["fluid_mass_flow_rate_per_borehole"]["value"])
+            out["summary_rho"] = float(d["ghe_system"]["fluid_density"]["value"])
             out["summary_rb"] = float(d["ghe_system"]["effective_borehole_resistance"]["value"])
             out["n_summary"] = int(d["ghe_system"]["number_of_boreholes"]) if "number_of_boreholes" in d["ghe_system"] else None
             mx, mn = ghe.simulate(TimestepType.HYBRID)
@@ -365,7 +377,10 @@ def bare_manager(case):
     from ghedesigner.manager import GHEManager
     phys = _phys(case)
     m = GHEManager()
-    m.set_fluid(phys["fluid"][0], phys["fluid"][1])
+    if "fluid_temp" in phys:
+        m.set_fluid(phys["fluid"][0], phys["fluid"][1], phys["fluid_temp"])
+    else:
+        m.set_fluid(phys["fluid"][0], phys["fluid"][1])
     m.set_grout(*phys["grout"])
     m.set_soil(*phys["soil"])
     h, d, dia = phys["borehole"]
@@ -421,15 +436,17 @@ def history_worker(case):
             try:
                 m.find_design()
             except Exception as e:  # noqa: BLE001
-                return {"raise": type(e).__name__, "msg": str(e)[:80], "ghes": list(rec), "gcalls": list(gcalls), "rho": float(m._fluid.rho)}
+                return {"raise": type(e).__name__, "msg": str(e)[:80], "ghes": list(rec), "gcalls": list(gcalls), "rho": float(m._fluid.rho),
+                        "rho_ref": ref_rho(_phys(case))}
             s, ghe = m._search, m._search.ghe
-            o = {"ghes": list(rec), "gcalls": list(gcalls), "rho": float(ghe.bhe.fluid.rho), "search": type(s).__name__,
+            o = {"ghes": list(rec), "gcalls": list(gcalls), "rho": float(ghe.bhe.fluid.rho), "rho_ref": ref_rho(_phys(case)), "search": type(s).__name__,
                  "search_v": float(s.V_flow), "search_ft": getattr(s.flow_type, "name", str(s.flow_type)),
                  "n": int(ghe.nbh), "H": float(ghe.bhe.b.H), "coords": [[float(x), float(y)] for x, y in ghe.gFunction.bore_locations],
                  "vsys": float(ghe.V_flow_system), "mbhe": float(ghe.bhe.m_flow_borehole), "rb": float(ghe.bhe.calc_effective_borehole_resistance())}
             m.prepare_results("p", "n", "a", "i")
             d = m.results.output_dict["ghe_system"]
             o["summary_m"] = float(d["fluid_mass_flow_rate_per_borehole"]["value"])
+            o["summary_rho"] = float(d["fluid_density"]["value"])
             o["summary_n"] = int(d["number_of_boreholes"])
             o["summary_rb"] = float(d["effective_borehole_resistance"]["value"])
             mx, mn = ghe.simulate(TimestepType.HYBRID)
@@ -522,7 +539,18 @@ def phys_flow(rng):
 def rand_phys(rng):
     p = ghelib.random_physics(rng)
     name = rng.choice(FLUIDS)
-    p["fluid"] = (name, 0.0 if name == "Water" else float(rng.choice([0, 5, 10, 15, 20, 25, 30, 40, 50, 60])))
+    p["fluid"] = (name, 0.0 if name == "Water" else float(rng.choice([5, 10, 15, 20, 25, 30, 40, 50, 60])))
+    if rng.random() < 0.4:
+        p["fluid_temp"] = float(rng.choice([5, 10, 15, 25, 30, 35]))
+    return p
+
+
+def alcohol_physics(rng):
+    """Default physics with one of the four mixtures at a non-zero concentration (and sometimes another design temperature)."""
+    p = ghelib.default_physics()
+    p["fluid"] = (rng.choice(FLUIDS[1:]), float(rng.choice([10, 20, 30, 40])))
+    if rng.random() < 0.5:
+        p["fluid_temp"] = float(rng.choice([10, 30]))
     return p
 
 
@@ -583,10 +611,20 @@ class Checker:
             ctx.extra.setdefault("first_disagreement", {})[stream] = detail
 
     # ---- impl state vs model answer vs oracle
-    def check_state(self, where, cls, ft, v, n, rho, st, model_line, replay):
+    def check_density(self, where, phys, rho, rho_ref, replay):
+        """The density the code works with must be that of the fluid the user specified."""
+        self.ctx.count("density compared with the independent fluid:" + phys["fluid"][0])
+        self.dev("rho-vs-independent-fluid", rho, rho_ref)
+        if not close(rho, rho_ref, REL15):
+            self.finding(f"fluid-density:{where}:{phys['fluid'][0]}",
+                         f"{where}: the fluid object for {fluid_label(phys)} has density {rho!r} kg/m3; pygfunction's Fluid('{ghelib.FLUID_CODES[phys['fluid'][0].upper()]}', "
+                         f"{phys['fluid'][1]:g}, {phys.get('fluid_temp', 20.0):g}) - the fluid that was specified - has {rho_ref!r}: the per-borehole mass flow v·rho/1000 is off by "
+                         f"{abs(rho / rho_ref - 1) * 100:.3f} % under both flow specifications", replay)
+
+    def check_state(self, where, cls, ft, v, n, rho, st, model_line, replay, rho_ref=None):
         """st: dict with vsys, mg, vb, mghe, mbhe, nbh or {"raise": name}.  model_line: answer of `flow.init`."""
         ctx = self.ctx
-        want = oracle(ft, v, n, rho)
+        want = oracle(ft, v, n, rho if rho_ref is None else rho_ref)   # the oracle uses the density of the SPECIFIED fluid
         got_raise = st.get("raise")
         if got_raise and st.get("after_g") and n >= 1 and got_raise != "ZeroDivisionError":
             # raised by the thermal models (pygfunction / equivalent U-tube / radial model) after the flow path had completed;
@@ -622,7 +660,7 @@ class Checker:
         for nm, key in (("m_flow(g-function)", "mg"), ("GHE.m_flow_borehole", "mghe"), ("bhe.m_flow_borehole", "mbhe")):
             if not close(st[key], float(want["m"]), REL15):
                 self.finding(f"mass-flow-formula:{where}:{cls}:{ft}:{key}",
-                            f"{cls} {where}: {nm} = {st[key]!r} but (per-borehole L/s)/1000·rho = {float(want['m'])!r} (ft={ft}, v={v!r}, N={n}, rho={rho!r})", replay)
+                            f"{cls} {where}: {nm} = {st[key]!r} but (per-borehole L/s)/1000·rho = {float(want['m'])!r} (ft={ft}, v={v!r}, N={n}, rho of the specified fluid={(rho if rho_ref is None else rho_ref)!r})", replay)
         if not close(st["vb"], float(want["vb"]), REL15):
             self.finding(f"per-borehole-flow:{where}:{cls}:{ft}", f"{cls} {where}: V_flow_borehole = {st['vb']!r}, specified {float(want['vb'])!r} (ft={ft}, v={v!r}, N={n})", replay)
         if not close(st["vsys"], float(want["vsys"]), REL15):
@@ -655,7 +693,10 @@ class Checker:
                 continue
             if which == "first" and ft not in ("B", "S"):
                 continue
-            rho = o["rho"]
+            rho = o.get("rho_ref", o["rho"])
+            self.check_density("find_design after a set_design history", _phys(c), o["rho"], rho, replay)
+            if "summary_rho" in o and not close(o["summary_rho"], rho, REL15):
+                self.finding(key + f":{which}:summary-density", f"{g}: summary fluid_density {o['summary_rho']!r}, the specified fluid {fluid_label(_phys(c))} has {rho!r}", replay)
             ctx.count("history:GHE objects observed", len(o["ghes"]))
             if "raise" not in o:
                 w = oracle(ft, v, o["n"], rho)
@@ -738,12 +779,15 @@ def run(ctx: core.Ctx):
                 "whole real candidate lists; (5) whole find_design runs; (6) call histories on ONE GHEManager: 2-4 set_design calls (borehole->system, "
                 "system->borehole, same type/other value, refused strings in between) then find_design, judged against the LAST accepted call "
                 "(design object, every GHE and g-function calculation of the search, summary, equality with a fresh manager, and BOREHOLE v vs "
-                "SYSTEM N·v on the re-used manager), plus random set_design/geometry histories against the state-machine model. distinct = distinct (class, flow type, v, N, rho[, pipe]); non-trivial = N >= 2 "
+                "SYSTEM N·v on the re-used manager), plus random set_design/geometry histories against the state-machine model; (7) the density: every mass-flow oracle takes rho from "
+                "pygfunction's own Fluid for the user-level (name, percent, temperature) - five fluids, 0-60 %, 5/20/35 C and random design temperatures - "
+                "and the GHEFluid / manager / summary density is compared with it. distinct = distinct (class, flow type, v, N, rho[, pipe]); non-trivial = N >= 2 "
                 "with a valid flow type (N = 1 makes the two specifications literally the same number; errors are branch checks)")
     ctx.trusted_base += [
         "translator translate/gen.py + translate/gen_flow.py (retrieve_flow copies, BaseGHE.__init__ flow slice, initialize_ghe wiring; regenerated every run)",
         "hand-written composition Model/Flow.lean (retrieve_flow -> borehole_spacing -> BaseGHE slice), tied to the code by running real search objects",
-        "pygfunction (fluid density, g-functions, multipole R_b), numpy/scipy in simulate(): the same code runs under both specifications",
+        "pygfunction (fluid property library, g-functions, multipole R_b), numpy/scipy in simulate(): the same code runs under both specifications",
+        "reference density: pygfunction.media.Fluid with pygfunction's documented mixture codes (WATER, MPG, MEG, MMA = methanol, MEA = ethanol) via ghelib.independent_fluid",
         "CPython float rounding: model/oracle are exact rationals, implementation compared at 1e-15 relative for flows, 1e-9 for R_b* and temperatures",
     ]
     ctx.assumptions += [
@@ -766,13 +810,22 @@ def run(ctx: core.Ctx):
     # fluids -------------------------------------------------------------------------------------------
     fluids = []
     for name in FLUIDS:
-        for pc in ([0.0] if name == "Water" else [0.0, 5.0, 10.0, 20.0, 30.0, 40.0, 50.0, 60.0]):
-            for temp in (20.0,) if quick else (5.0, 20.0, 35.0):
+        for pc in ([0.0] if name == "Water" else [30.0, 0.0, 5.0, 10.0, 20.0, 40.0, 50.0, 60.0]):
+            for temp in (20.0, 5.0, 35.0):
+                ph = {"fluid": (name, pc), "fluid_temp": temp}
                 try:
-                    f = GHEFluid(name, pc, temp)
-                    fluids.append((name, pc, temp, float(f.rho)))
+                    rr = ref_rho(ph)
                 except Exception:  # noqa: BLE001
                     ctx.count("fluid-rejected-by-pygfunction")
+                    continue
+                fluids.append((name, pc, temp, rr))
+                try:
+                    f = GHEFluid(name, pc, temp)
+                except Exception as e:  # noqa: BLE001
+                    ck.finding(f"fluid-density:GHEFluid:{name}:raise", f"GHEFluid({name!r}, {pc}, {temp}) raised {type(e).__name__} although pygfunction knows that fluid", {"part": "fluid", "phys": ph})
+                    continue
+                ctx.case(("fluid", name, pc, temp), pc > 0, {"part": "fluid", "phys": ph, "GHEFluid.rho": float(f.rho), "independent rho": rr} if (name, pc, temp) == ("MethylAlcohol", 30.0, 20.0) else None)
+                ck.check_density("GHEFluid", ph, float(f.rho), rr, {"part": "fluid", "phys": ph, "GHEFluid.rho": float(f.rho), "independent rho": rr})
     ctx.extra["fluids"] = len(fluids)
     ctx.extra["rho_range"] = [min(f[3] for f in fluids), max(f[3] for f in fluids)]
 
@@ -946,7 +999,8 @@ def run(ctx: core.Ctx):
         pats += [rng.choice(extra)] if quick else extra
         for pat, calls, fb, eq in pats:
             hcases.append({"id": f"h{len(hcases)}", "geom": g, "pattern": pat, "calls": calls, "find_between": fb, "equiv": eq,
-                           "pipe": "SINGLEUTUBE" if quick else rng.choice(ghelib.PIPE_KINDS[:3]), "phys": ghelib.default_physics(),
+                           "pipe": "SINGLEUTUBE" if quick else rng.choice(ghelib.PIPE_KINDS[:3]),
+                           "phys": alcohol_physics(rng) if len(hcases) % 2 == 1 else ghelib.default_physics(),
                            "months": 12, "load_scale": round(rng.uniform(0.05, 0.08), 3)})
     if only == "history":
         hcases = [rp["case"]]
@@ -961,7 +1015,7 @@ def run(ctx: core.Ctx):
             if not quick:
                 v = v * rng.choice([0.6, 1.0, 1.5])
             designs.append({"id": f"design-{g}-{ft}", "geom": g, "ft": ft, "v": v, "pipe": "SINGLEUTUBE" if quick or rng.random() < 0.5 else rng.choice(ghelib.PIPE_KINDS),
-                            "phys": ghelib.default_physics(), "months": 120, "load_scale": 1.0})
+                            "phys": alcohol_physics(rng) if len(designs) % 2 == 1 else ghelib.default_physics(), "months": 120, "load_scale": 1.0})
     if not quick:
         for g in geoms:
             p = rand_phys(rng)
@@ -1060,6 +1114,8 @@ def run(ctx: core.Ctx):
             continue
         n, rho = c["n"], r["rho"]
         replay = {"part": "BaseGHE.__init__", "case": c, "impl": r}
+        rho_ref = r.get("rho_ref", rho)
+        ck.check_density("BaseGHE", _phys(c), rho, rho_ref, replay)
         ctx.case(("base", c["klass"], c["pipe"], c["vsys"], n, rho), n >= 2, replay if i == 1 else None)
         ctx.count("base:" + n_bucket(n)); ctx.count("base:pipe=" + c["pipe"]); ctx.count("base:class=" + c["klass"])
         ctx.count("outcome:BaseGHE:" + r.get("raise", "ok"))
@@ -1086,10 +1142,10 @@ def run(ctx: core.Ctx):
                 ctx.count(f"outcome:BaseGHE:thermal-model-raise:{r['raise']} (outside the flow path)")
             continue
         want_vb = Fraction(c["vsys"]) / n
-        want_m = want_vb * Fraction(rho) / 1000
+        want_m = want_vb * Fraction(rho_ref) / 1000
         for key, w in (("vb", want_vb), ("mghe", want_m), ("mbhe", want_m)):
             if not close(r[key], float(w), REL15):
-                ck.finding(f"mass-flow-formula:BaseGHE:{key}", f"{c['klass']}: {key} = {r[key]!r}, expected V_sys/N(/1000·rho) = {float(w)!r} (V_sys={c['vsys']!r}, N={n}, rho={rho!r})", replay)
+                ck.finding(f"mass-flow-formula:BaseGHE:{key}", f"{c['klass']}: {key} = {r[key]!r}, expected V_sys/N(/1000·rho) = {float(w)!r} (V_sys={c['vsys']!r}, N={n}, rho of {fluid_label(_phys(c))}={rho_ref!r})", replay)
 
     # ---------------------------------------------------------------- (3) evaluate
     lines, where = [], []
@@ -1114,12 +1170,14 @@ def run(ctx: core.Ctx):
         for k, sp in enumerate(r["res"]):
             replay = {"part": "pipeline", "case": c, "spec_index": k, "impl": sp}
             ft, v, rho = sp["ft"], sp["v"], sp["rho"]
+            if k == 0 and "rho_ref" in sp:
+                ck.check_density("search-class pipeline", _phys(c), rho, sp["rho_ref"], replay)
             ctx.case(("pipe", cls, c["pipe"], ft, v, n, rho, c["g"]), n >= 2 and ft in ("B", "S"), replay if (c["id"], k) in (("p3", 0), ("p3", 1)) else None)
             ctx.count("pipe:ft=" + ft_code(ft)); ctx.count("pipe:" + v_bucket(v))
             if "none" not in sp["ctor"]:
-                ck.check_state("Bisection1D.__init__", cls, ft, v, n, rho, sp["ctor"], model[(c["id"], k)], replay)
+                ck.check_state("Bisection1D.__init__", cls, ft, v, n, rho, sp["ctor"], model[(c["id"], k)], replay, rho_ref=sp.get("rho_ref"))
             if sp["init"].get("via") != "ctor":
-                ck.check_state("initialize_ghe", cls, ft, v, n, rho, sp["init"], model[(c["id"], k)], replay)
+                ck.check_state("initialize_ghe", cls, ft, v, n, rho, sp["init"], model[(c["id"], k)], replay, rho_ref=sp.get("rho_ref"))
                 if "raise" not in sp["init"] and sp["init"].get("calls") != 1:
                     ck.disagree("initialize_ghe-wiring", {"case": c["id"], "g-function calls": sp["init"].get("calls")})
         # equivalence BOREHOLE v  vs  SYSTEM fl(v·N)
@@ -1145,7 +1203,7 @@ def run(ctx: core.Ctx):
             if "infra" in r or "raise" in r["res"][0]["init"]:
                 continue
             st = r["res"][0]["init"]
-            pts.append((st["nbh"], st["mbhe"], r["res"][0]["v"], r["res"][0]["rho"], st["rb"]))
+            pts.append((st["nbh"], st["mbhe"], r["res"][0]["v"], r["res"][0].get("rho_ref", r["res"][0]["rho"]), st["rb"]))
         pts.sort()
         ctx.case(("chain", name, tuple(p[0] for p in pts)), True, {"part": "chain", "N": [p[0] for p in pts], "bhe.m_flow": [p[1] for p in pts], "R_b*": [p[4] for p in pts]} if name == "chain0" else None)
         for (n1, m1, v1, rho1, _), (n2, m2, _, _, _) in zip(pts, pts[1:]):
@@ -1161,7 +1219,10 @@ def run(ctx: core.Ctx):
         if "infra" in r:
             continue
         replay = {"part": "design", "case": d, "impl": {k: v for k, v in r.items() if k not in ("ghes", "gcalls")}}
-        ft, v, rho = d["ft"], d["v"], r["rho"]
+        ft, v, rho = d["ft"], d["v"], r.get("rho_ref", r["rho"])
+        ck.check_density("find_design", _phys(d), r["rho"], rho, replay)
+        if "summary_rho" in r and not close(r["summary_rho"], rho, REL15):
+            ck.finding(f"design:{d['geom']}:{ft}:summary-density", f"summary fluid_density {r['summary_rho']!r}, the specified fluid {fluid_label(_phys(d))} has {rho!r}", replay)
         ghes = r["ghes"]
         ctx.count("design:" + d["geom"] + ":" + ft)
         ctx.count("design:GHE objects observed", len(ghes))
